@@ -17,7 +17,8 @@
 EXTENDS Integers, Sequences, FiniteSets, TLC
 
 CONSTANTS N,            \* number of break candidates (>= 2)
-          Vals,         \* matrix entries
+          Vals,         \* matrix entries ...
+          Shift,        \* ... minus Shift (a cfg file cannot hold negative numbers): signed costs / rewards
           Legacy,       \* transcribe the pinned mode tests
           Mode          \* "mc" | "none"
 VARIABLES C, mode, ph
@@ -76,9 +77,9 @@ Algo(c, n, m) == Backtrack(AlgoTables(c, n, m).M, 0, n - 1) \o <<n - 1>>
 Pairs == {<<i, j>> \in (0..(N - 1)) \X (0..(N - 1)) : i < j}
 Row0 == {p \in Pairs : p[1] = 0}
 Init == Mode = "mc" /\ ph = 0 /\ mode \in {MINIMIZE, MAXIMIZE}
-        /\ \E f \in [Row0 -> Vals] : C = [p \in Pairs |-> IF p \in Row0 THEN f[p] ELSE 0]
+        /\ \E f \in [Row0 -> Vals] : C = [p \in Pairs |-> IF p \in Row0 THEN f[p] - Shift ELSE 0]
 Next == ph = 0 /\ ph' = 1 /\ mode' = mode
-        /\ \E f \in [Pairs \ Row0 -> Vals] : C' = [p \in Pairs |-> IF p \in Row0 THEN C[p] ELSE f[p]]
+        /\ \E f \in [Pairs \ Row0 -> Vals] : C' = [p \in Pairs |-> IF p \in Row0 THEN C[p] ELSE f[p] - Shift]
 Spec == Init /\ [][Next]_vars
 AlgoOptimal == ph = 1 => AcceptPartition(C, N, mode, Algo(C, N, mode)) = "ok"
 =============================================================================
